@@ -116,12 +116,22 @@ structure QB (st st' : St) : Prop where
     (∃ s0 ∈ st.pfd, s0.watch = some a) ∨ (a < st'.heap.length ∧ isOneShot (st'.getW a).type = false)
   pus : ∀ l, st.heap.length ≤ l → l < st'.heap.length → (st'.getW l).slot = -4 →
     (st'.getW l).puser < st'.heap.length ∧ isOneShot (st'.getW (st'.getW l).puser).type = false
+  /-- `process.notify` of a watch is what it was, or points at an internal watch (negative slot number) -/
+  pno : ∀ x, x < st'.heap.length → ∀ l, (st'.getW x).notify = some l →
+    (x < st.heap.length ∧ (st.getW x).notify = some l) ∨ (l < st'.heap.length ∧ (st'.getW l).slot < 0)
 
 theorem QB.refl (st : St) : QB st st :=
-  ⟨MH.refl st, fun s hs a ha => Or.inl ⟨s, hs, ha⟩, fun l h1 h2 => by omega⟩
+  ⟨MH.refl st, fun s hs a ha => Or.inl ⟨s, hs, ha⟩, fun l h1 h2 => by omega, fun x hx l hl => Or.inl ⟨hx, hl⟩⟩
 
 theorem QB.trans {a b c : St} (h1 : QB a b) (h2 : QB b c) : QB a c := by
-  refine ⟨h1.h.trans h2.h, ?_, ?_⟩
+  refine ⟨h1.h.trans h2.h, ?_, ?_, ?_⟩
+  rotate_right
+  · intro x hx l hl
+    rcases h2.pno x hx l hl with e | e
+    · rcases h1.pno x e.1 l e.2 with e1 | e1
+      · exact Or.inl e1
+      · exact Or.inr ⟨Nat.lt_of_lt_of_le e1.1 h2.h.len, by rw [h2.h.slot l e1.1]; exact e1.2⟩
+    · exact Or.inr e
   · intro s hs x hx
     cases h2.pfd s hs x hx with
     | inl e =>
@@ -140,7 +150,12 @@ theorem QB.trans {a b c : St} (h1 : QB a b) (h2 : QB b c) : QB a c := by
 
 theorem QB.of_eq {st st' : St} (hh : st'.heap = st.heap) (hst : st'.status = st.status)
     (hp : st'.pfd.map (·.watch) = st.pfd.map (·.watch)) : QB st st' := by
-  refine ⟨MH.of_heap_eq hh hst, ?_, ?_⟩
+  refine ⟨MH.of_heap_eq hh hst, ?_, ?_, ?_⟩
+  rotate_right
+  · intro x hx l hl
+    rw [hh] at hx
+    rw [getW_of_heap_eq hh] at hl
+    exact Or.inl ⟨hx, hl⟩
   · intro s hs a ha
     left
     have : some a ∈ st'.pfd.map (·.watch) := List.mem_map.mpr ⟨s, hs, ha⟩
@@ -171,25 +186,45 @@ theorem Q0.of_eq {st st' : St} (hh : st'.heap = st.heap) (hst : st'.status = st.
 
 /-- From a heap relation alone, when nothing else the relation speaks of moved and no watch was allocated. -/
 theorem Q0.of_mh {st st' : St} (h : MH st st') (hl : st'.heap.length = st.heap.length) (hs : st'.slots = st.slots)
-    (hp : st'.pfd = st.pfd) : Q0 st st' :=
-  ⟨⟨h, fun s hs' a ha => Or.inl ⟨s, by rw [← hp]; exact hs', ha⟩, fun l h1 h2 => by omega⟩, hs, fun x h1 h2 => by omega⟩
+    (hp : st'.pfd = st.pfd)
+    (hn : ∀ x, x < st.heap.length → ∀ l, (st'.getW x).notify = some l →
+      (st.getW x).notify = some l ∨ (l < st'.heap.length ∧ (st'.getW l).slot < 0)) : Q0 st st' :=
+  ⟨⟨h, fun s hs' a ha => Or.inl ⟨s, by rw [← hp]; exact hs', ha⟩, fun l h1 h2 => by omega,
+    fun x hx l hnl => (by
+      rw [hl] at hx
+      exact (hn x hx l hnl).imp (fun e => ⟨hx, e⟩) id)⟩, hs, fun x h1 h2 => by omega⟩
+
+/-- … and when the heap is literally the same (only the status moved). -/
+theorem Q0.of_heap {st st' : St} (h : MH st st') (hh : st'.heap = st.heap) (hs : st'.slots = st.slots) (hp : st'.pfd = st.pfd) : Q0 st st' :=
+  Q0.of_mh h (by rw [hh]) hs hp (fun x _ l hl => Or.inl (by rw [getW_of_heap_eq hh] at hl; exact hl))
 
 /-! primitives -/
 
 theorem q0_emit (st : St) (e : Ev) : Q0 st (st.emit e) := Q0.of_eq rfl rfl rfl rfl
 theorem q0_fail (st : St) (w : Ub) : Q0 st (st.fail w) :=
-  Q0.of_mh (mh_fail st w) (by rw [St.heap_fail]) (by unfold St.fail; split <;> rfl) (by unfold St.fail; split <;> rfl)
+  Q0.of_heap (mh_fail st w) (St.heap_fail st w) (by unfold St.fail; split <;> rfl) (by unfold St.fail; split <;> rfl)
 theorem q0_setW (st : St) (a : Nat) (w : Watch) (h1 : w.slot = (st.getW a).slot) (h2 : w.puser = (st.getW a).puser)
-    (h3 : w.type = (st.getW a).type ∨ w.type = .none) (h4 : w.freed = false → (st.getW a).freed = false) : Q0 st (st.setW a w) :=
-  Q0.of_mh (mh_setW st a w h1 h2 h3 h4) (St.length_setW _ _ _) rfl rfl
+    (h3 : w.type = (st.getW a).type ∨ w.type = .none) (h4 : w.freed = false → (st.getW a).freed = false)
+    (h5 : ∀ l, w.notify = some l → (st.getW a).notify = some l ∨ (l < st.heap.length ∧ (st.getW l).slot < 0)) : Q0 st (st.setW a w) := by
+  have hm := mh_setW st a w h1 h2 h3 h4
+  refine Q0.of_mh hm (St.length_setW _ _ _) rfl rfl ?_
+  intro x hx l hl
+  by_cases hax : a = x
+  · subst hax
+    rw [St.getW_setW_self st a w hx] at hl
+    rcases h5 l hl with e | e
+    · exact Or.inl e
+    · exact Or.inr ⟨by rw [St.length_setW]; exact e.1, by rw [hm.slot l e.1]; exact e.2⟩
+  · rw [St.getW_setW_ne st a x w hax] at hl
+    exact Or.inl hl
 theorem q0_setEvi (st : St) (a idx : Nat) : Q0 st (st.setW a { st.getW a with evi := idx }) :=
-  q0_setW st a _ rfl rfl (Or.inl rfl) (fun h => h)
+  q0_setW st a _ rfl rfl (Or.inl rfl) (fun h => h) (fun l h => Or.inl h)
 theorem q0_setWstatus (st : St) (a : Nat) (ws : Int) : Q0 st (st.setW a { st.getW a with wstatus := ws }) :=
-  q0_setW st a _ rfl rfl (Or.inl rfl) (fun h => h)
+  q0_setW st a _ rfl rfl (Or.inl rfl) (fun h => h) (fun l h => Or.inl h)
 theorem q0_free (st : St) (a : Nat) : Q0 st (st.free a) := by
   unfold St.free
   split
-  · exact q0_setW st a _ rfl rfl (Or.inl rfl) (fun h => by cases h)
+  · exact q0_setW st a _ rfl rfl (Or.inl rfl) (fun h => by cases h) (fun l h => Or.inl h)
   · exact q0_fail _ _
 theorem q0_setListOf (st : St) (t : WType) (l : List Nat) : Q0 st (setListOf st t l) := by
   cases t <;> exact Q0.of_eq rfl rfl rfl rfl
@@ -202,7 +237,7 @@ theorem q0_with_errno (st : St) (v : Int) : Q0 st { st with errno := v } := Q0.o
 theorem q0_with_children (st : St) (l : List Proc) : Q0 st { st with children := l } := Q0.of_eq rfl rfl rfl rfl
 theorem q0_with_stillRunning (st : St) (b : Bool) : Q0 st { st with stillRunning := b } := Q0.of_eq rfl rfl rfl rfl
 theorem q0_with_status (st : St) (x : Status) (hx : x ≠ .ok) : Q0 st { st with status := x } :=
-  Q0.of_mh (MH.of_heap_eq_bad rfl (by
+  Q0.of_heap (MH.of_heap_eq_bad rfl (by
     show (x == Status.ok) = false
     cases x <;> first | exact absurd rfl hx | rfl)) rfl rfl rfl
 theorem q0_with_pendingSig (st : St) (l : List Int) : Q0 st { st with pendingSig := l } := Q0.of_eq rfl rfl rfl rfl
@@ -232,7 +267,7 @@ theorem q0_evloopCancelSignal (st : St) (idx : Nat) : Q0 st (evloopCancelSignal 
   · exact Q0.of_eq rfl rfl rfl rfl
   · split
     · split
-      · exact Q0.of_mh (MH.of_heap_eq_bad rfl rfl) rfl rfl rfl
+      · exact Q0.of_heap (MH.of_heap_eq_bad rfl rfl) rfl rfl rfl
       · exact Q0.of_eq rfl rfl rfl rfl
     · exact Q0.of_eq rfl rfl rfl rfl
 
@@ -267,7 +302,8 @@ theorem q0_waitpidV (st : St) (pid : Int) : Q0 st (waitpidV st pid).st := by
 
 /-- `evloop_cancel_io`: the entry stops pointing at a watch. -/
 theorem q0_evloopCancelIo (st : St) (idx : Nat) : Q0 st (evloopCancelIo st idx) := by
-  refine ⟨⟨MH.of_heap_eq rfl rfl, ?_, fun l h1 h2 => by have : (evloopCancelIo st idx).heap = st.heap := rfl; rw [this] at h2; omega⟩,
+  refine ⟨⟨MH.of_heap_eq rfl rfl, ?_, fun l h1 h2 => by have : (evloopCancelIo st idx).heap = st.heap := rfl; rw [this] at h2; omega,
+      fun x hx l hl => Or.inl ⟨hx, hl⟩⟩,
     rfl, fun x h1 h2 => by have : (evloopCancelIo st idx).heap = st.heap := rfl; rw [this] at h2; omega⟩
   intro s hs a ha
   left
@@ -282,7 +318,8 @@ theorem q0_evloopIo (st : St) (fd : Int) (cond : Nat) (w : Nat) (hw : w < st.hea
   have hheap : (evloopIo st fd cond w).1.heap = st.heap := by unfold evloopIo; split <;> rfl
   have hslots : (evloopIo st fd cond w).1.slots = st.slots := by unfold evloopIo; split <;> rfl
   have hstat : (evloopIo st fd cond w).1.status = st.status := by unfold evloopIo; split <;> rfl
-  refine ⟨⟨MH.of_heap_eq hheap hstat, ?_, fun l h1 h2 => by rw [hheap] at h2; omega⟩, hslots, fun x h1 h2 => by rw [hheap] at h2; omega⟩
+  refine ⟨⟨MH.of_heap_eq hheap hstat, ?_, fun l h1 h2 => by rw [hheap] at h2; omega,
+    fun x hx l hl => Or.inl ⟨by rw [hheap] at hx; exact hx, by rw [getW_of_heap_eq hheap] at hl; exact hl⟩⟩, hslots, fun x h1 h2 => by rw [hheap] at h2; omega⟩
   intro s hs a ha
   -- every entry of the new table is an old entry or the one handed out, which points at `w`
   have key : s ∈ st.pfd ∨ s.watch = some w := by
@@ -332,16 +369,16 @@ theorem q0_cancelFound (st : St) (a : Nat) (w : Watch) (l : List Nat) : Q0 st (c
 
 theorem q0_cancelDetached (st : St) (a : Nat) : Q0 st (cancelDetached st a) := by
   unfold cancelDetached
-  exact (q0_cancelNotify st a _).trans (q0_setW _ a _ rfl rfl (Or.inr rfl) (fun h => h))
+  exact (q0_cancelNotify st a _).trans (q0_setW _ a _ rfl rfl (Or.inr rfl) (fun h => h) (fun l h => Or.inl h))
 
 theorem q0_laterPre (st : St) (a : Nat) : Q0 st (laterPre st a) := by
   unfold laterPre
   split
-  · exact q0_setW _ a _ rfl rfl (Or.inl rfl) (fun h => h)
+  · exact q0_setW _ a _ rfl rfl (Or.inl rfl) (fun h => h) (fun l h => Or.inl h)
   · exact Q0.refl _
 
-theorem q0_watchCancel (st : St) (a : Nat) : Q0 st (watchCancel st a) := by
-  unfold watchCancel
+theorem q0_watchCancel0 (st : St) (a : Nat) : Q0 st (watchCancel0 st a) := by
+  unfold watchCancel0
   split
   · exact Q0.refl st
   · split
@@ -356,9 +393,17 @@ theorem q0_watchCancel (st : St) (a : Nat) : Q0 st (watchCancel st a) := by
             · exact Q0.refl st
           · exact q0_cancelFound _ _ _ _
 
+theorem q0_watchCancel (st : St) (a : Nat) : Q0 st (watchCancel st a) := by
+  unfold watchCancel
+  split
+  · split
+    · exact (q0_watchCancel0 st a).trans (q0_watchCancel0 _ _)
+    · exact q0_watchCancel0 st a
+  · exact q0_watchCancel0 st a
+
 /-- `watch->type = WATCH_NONE; free(watch);` -/
 theorem q0_setNoneFree (st : St) (a : Nat) : Q0 st ((st.setW a { st.getW a with type := .none }).free a) :=
-  (q0_setW st a { st.getW a with type := .none } rfl rfl (Or.inr rfl) (fun h => h)).trans (q0_free _ _)
+  (q0_setW st a { st.getW a with type := .none } rfl rfl (Or.inr rfl) (fun h => h) (fun l h => Or.inl h)).trans (q0_free _ _)
 
 theorem q0_unlinkOneshot (st : St) (a : Nat) : Q0 st (unlinkOneshot st a) := by
   unfold unlinkOneshot
@@ -419,9 +464,19 @@ theorem Reg.q0 {a b : St} {k : Int} (h : Reg a b k) (hk : k < 0) : Q0 a b := by
   · exact h.rest x (by omega) hx2
 
 theorem reg_alloc (st : St) (w : Watch)
-    (hp : w.slot = -4 → w.puser < st.heap.length ∧ isOneShot (st.getW w.puser).type = false) : Reg st (st.alloc w).1 w.slot := by
+    (hp : w.slot = -4 → w.puser < st.heap.length ∧ isOneShot (st.getW w.puser).type = false) (hn : w.notify = none := by rfl) :
+    Reg st (st.alloc w).1 w.slot := by
   have hlen := alloc_len st w
-  refine ⟨⟨mh_alloc st w, fun s hs a ha => Or.inl ⟨s, hs, ha⟩, ?_⟩, rfl, by rw [hlen]; omega, by rw [getW_alloc_new], ?_⟩
+  have hpno : ∀ x, x < (st.alloc w).1.heap.length → ∀ l, ((st.alloc w).1.getW x).notify = some l →
+      (x < st.heap.length ∧ (st.getW x).notify = some l) ∨ (l < (st.alloc w).1.heap.length ∧ ((st.alloc w).1.getW l).slot < 0) := by
+    intro x hx l hl
+    rw [hlen] at hx
+    by_cases e : x < st.heap.length
+    · rw [getW_alloc_old st w x e] at hl; exact Or.inl ⟨e, hl⟩
+    · have : x = st.heap.length := by omega
+      subst this
+      rw [getW_alloc_new, hn] at hl; cases hl
+  refine ⟨⟨mh_alloc st w, fun s hs a ha => Or.inl ⟨s, hs, ha⟩, ?_, hpno⟩, rfl, by rw [hlen]; omega, by rw [getW_alloc_new], ?_⟩
   · intro l h1 h2 hs
     rw [hlen] at h2
     have : l = st.heap.length := by omega
@@ -484,6 +539,23 @@ theorem q0_ensureSigchld (st : St) : Q0 st (ensureSigchld st) := by
       (Q0.of_eq rfl rfl rfl rfl : Q0 (watchSignal st SIGCHLD 0 (-3)).1
         { (watchSignal st SIGCHLD 0 (-3)).1 with sigchldwatch := some (watchSignal st SIGCHLD 0 (-3)).2 })
 
+/-- `watch->process.notify = n` where `n` is nothing or an internal watch. -/
+theorem q0_setNotify (st : St) (a : Nat) (n : Option Nat)
+    (hn : ∀ l, n = some l → l < st.heap.length ∧ (st.getW l).slot < 0) : Q0 st (setNotify st a n) := by
+  unfold setNotify
+  exact q0_setW st a { st.getW a with notify := n } rfl rfl (Or.inl rfl) (fun h => h) (fun l hl => Or.inr (hn l hl))
+
+theorem q0_linkNotified (r : St × Nat) (a : Nat) (flags : Nat) (hn : r.2 < r.1.heap.length ∧ (r.1.getW r.2).slot < 0) :
+    Q0 r.1 (linkNotified r a flags) := by
+  unfold linkNotified
+  exact ((q0_setNotify r.1 a (some r.2) (fun l hl => by cases hl; exact hn)).trans (q0_insertWatch _ _ _ _)).trans (q0_with_procs _ _)
+
+theorem q0_clearNotify (st : St) (a : Nat) : Q0 st (clearNotify st a) := by
+  unfold clearNotify
+  split
+  · exact q0_setNotify st a none (fun l hl => by cases hl)
+  · exact Q0.refl _
+
 /-- The tail of `tickit_watch_process` for a process watch `a` (not a timer / deferred callback). -/
 theorem q0_linkProcess (st : St) (a : Nat) (pid : Int) (flags : Nat) (ha : a < st.heap.length)
     (ht : isOneShot (st.getW a).type = false) : Q0 st (linkProcess st a pid flags) := by
@@ -492,8 +564,16 @@ theorem q0_linkProcess (st : St) (a : Nat) (pid : Int) (flags : Nat) (ha : a < s
   have gW := q0_waitpid st pid
   split
   · have gS := gW.trans (q0_setWstatus (waitpid st pid).st a (waitpid st pid).wstatus)
-    refine gS.trans ((reg_watchLater _ 0 (-4) a (fun _ => ?_)).q0 (by decide))
-    exact ⟨Nat.lt_of_lt_of_le ha gS.b.h.len, gS.b.h.notOneShot ha ht⟩
+    have hp : a < ((waitpid st pid).st.setW a { (waitpid st pid).st.getW a with wstatus := (waitpid st pid).wstatus }).heap.length ∧
+        isOneShot ((((waitpid st pid).st.setW a { (waitpid st pid).st.getW a with wstatus := (waitpid st pid).wstatus })).getW a).type = false :=
+      ⟨Nat.lt_of_lt_of_le ha gS.b.h.len, gS.b.h.notOneShot ha ht⟩
+    generalize ((waitpid st pid).st.setW a { (waitpid st pid).st.getW a with wstatus := (waitpid st pid).wstatus }) = sS at *
+    have hR := reg_watchLater sS 0 (-4) a (fun _ => hp)
+    have hL : Q0 sS (watchLater sS 0 (-4) a).1 := hR.q0 (by decide)
+    split
+    · have h2 : (watchLater sS 0 (-4) a).2 = sS.heap.length := rfl
+      exact gS.trans (hL.trans (q0_linkNotified (watchLater sS 0 (-4) a) a flags ⟨by rw [h2]; exact hR.lt, by rw [h2, hR.first]; decide⟩))
+    · exact gS.trans hL
   · exact (gW.trans (q0_insertWatch _ _ _ _)).trans (q0_with_procs _ _)
 
 theorem reg_watchProcess (st : St) (pid : Int) (flags : Nat) (slot : Int) (hs : slot ≠ -4) :
@@ -692,7 +772,7 @@ structure R2 (E : List Nat) (st st' : St) : Prop where
   newl : st'.isOk = true → ∀ x, st.heap.length ≤ x → x < st'.heap.length → st'.live x = true →
     ((st'.getW x).type = .timer → x ∈ st'.timers ∨ x ∈ E) ∧ ((st'.getW x).type = .later → x ∈ st'.laters ∨ x ∈ E)
   gone : ∀ x, x < st'.heap.length → (x < st.heap.length → st.live x = true) → st'.live x = false →
-    isOneShot (st'.getW x).type = false ∨ (st'.getW x).slot ∈ st'.cancelReq
+    isOneShot (st'.getW x).type = false ∨ (st'.getW x).slot ∈ st'.cancelReq ∨ (st'.getW x).slot < 0
 
 theorem R2.refl (E : List Nat) (st : St) : R2 E st st :=
   ⟨MH.refl st, rfl, fun _ h => h, fun _ x hx _ => Or.inl hx, fun _ x hx _ => Or.inl hx, fun _ x h1 h2 => by omega,
@@ -746,9 +826,10 @@ theorem R2.trans {E : List Nat} {a b c : St} (h1 : R2 E a b) (h2 : R2 E b c) : R
     by_cases hb : x < b.heap.length
     · cases hlb : b.live x with
       | false =>
-        rcases h1.gone x hb hl hlb with h | h
+        rcases h1.gone x hb hl hlb with h | h | h
         · exact Or.inl (h2.h.notOneShot hb h)
-        · right; rw [h2.h.slot x hb]; exact h2.creq _ h
+        · right; left; rw [h2.h.slot x hb]; exact h2.creq _ h
+        · right; right; rw [h2.h.slot x hb]; exact h
       | true => exact h2.gone x hx (fun _ => hlb) hd
     · exact h2.gone x hx (fun h => absurd h hb) hd
 
@@ -846,7 +927,7 @@ theorem r2_setWstatus (E : List Nat) (st : St) (a : Nat) (ws : Int) : R2 E st (s
 
 /-- `free(a)` of a watch that is not a timer / deferred callback, or whose cancellation was asked for. -/
 theorem r2_free (E : List Nat) (st : St) (a : Nat)
-    (ha : isOneShot (st.getW a).type = false ∨ (st.getW a).slot ∈ st.cancelReq) : R2 E st (st.free a) := by
+    (ha : isOneShot (st.getW a).type = false ∨ (st.getW a).slot ∈ st.cancelReq ∨ (st.getW a).slot < 0) : R2 E st (st.free a) := by
   have hm := mh_free st a
   have hlen : (st.free a).heap.length = st.heap.length := by
     unfold St.free; split
@@ -862,9 +943,10 @@ theorem r2_free (E : List Nat) (st : St) (a : Nat)
   rw [hlen] at hx
   by_cases hax : a = x
   · subst hax
-    rcases ha with h | h
+    rcases ha with h | h | h
     · exact Or.inl (hm.notOneShot hx h)
-    · right; rw [hm.slot a hx, hcr]; exact h
+    · right; left; rw [hm.slot a hx, hcr]; exact h
+    · right; right; rw [hm.slot a hx]; exact h
   · rw [St.live_free_ne _ _ _ hax, hlv hx] at hd; cases hd
 
 theorem r2_with_iow (E : List Nat) (st : St) (l : List Nat) : R2 E st { st with iow := l } := R2.of_eq rfl rfl rfl rfl rfl rfl
@@ -1038,7 +1120,7 @@ theorem isOk_cancelRest (st : St) (rest : List Nat) (h : (cancelRest st rest).is
 
 /-- `tickit_watch_cancel` once the watch has been found (`w`, `l` as `watchCancel` passes them). -/
 theorem r2_cancelFound (st : St) (a : Nat)
-    (ha : isOneShot (st.getW a).type = false ∨ (st.getW a).slot ∈ st.cancelReq) :
+    (ha : isOneShot (st.getW a).type = false ∨ (st.getW a).slot ∈ st.cancelReq ∨ (st.getW a).slot < 0) :
     R2 [] st (cancelFound st a (st.getW a) (listOf st (st.getW a).type)) := by
   unfold cancelFound
   have h1 := r2_setListOf_erase st (st.getW a).type a
@@ -1079,9 +1161,9 @@ theorem r2_laterPre (E : List Nat) (st : St) (a : Nat) : R2 E st (laterPre st a)
   · exact r2_setW_keep E _ a _ rfl rfl (Or.inl rfl) rfl
   · exact R2.refl _ _
 
-theorem r2_watchCancel (E : List Nat) (st : St) (a : Nat)
-    (ha : isOneShot (st.getW a).type = false ∨ (st.getW a).slot ∈ st.cancelReq) : R2 E st (watchCancel st a) := by
-  unfold watchCancel
+theorem r2_watchCancel0 (E : List Nat) (st : St) (a : Nat)
+    (ha : isOneShot (st.getW a).type = false ∨ (st.getW a).slot ∈ st.cancelReq ∨ (st.getW a).slot < 0) : R2 E st (watchCancel0 st a) := by
+  unfold watchCancel0
   split
   · exact R2.refl _ st
   · split
@@ -1095,6 +1177,21 @@ theorem r2_watchCancel (E : List Nat) (st : St) (a : Nat)
             · exact r2_cancelDetached E st a
             · exact R2.refl _ st
           · exact (r2_cancelFound st a ha).mono (fun x hx => by cases hx)
+
+/-- `tickit_watch_cancel`: the watch itself, and — repaired, for a process watch whose child had already exited —
+    the internal deferred callback `process.notify` points at. -/
+theorem r2_watchCancel (E : List Nat) (st : St) (a : Nat)
+    (ha : isOneShot (st.getW a).type = false ∨ (st.getW a).slot ∈ st.cancelReq ∨ (st.getW a).slot < 0)
+    (hn : ∀ l, (st.getW a).notify = some l → l < st.heap.length ∧ (st.getW l).slot < 0) : R2 E st (watchCancel st a) := by
+  unfold watchCancel
+  split
+  · split
+    · rename_i l hl
+      have h1 := r2_watchCancel0 E st a ha
+      obtain ⟨n1, n2⟩ := hn l hl
+      exact h1.trans (r2_watchCancel0 E _ l (Or.inr (Or.inr (by rw [h1.h.slot l n1]; exact n2))))
+    · exact r2_watchCancel0 E st a ha
+  · exact r2_watchCancel0 E st a ha
 
 /-- `watch->type = WATCH_NONE; free(watch);` — the freed watch has no type any more. -/
 theorem r2_setNoneFree (E : List Nat) (st : St) (a : Nat) : R2 E st ((st.setW a { st.getW a with type := .none }).free a) := by
@@ -1320,11 +1417,28 @@ theorem r2_ensureSigchld (E : List Nat) (st : St) : R2 E st (ensureSigchld st) :
       (R2.of_eq rfl rfl rfl rfl rfl rfl : R2 E (watchSignal st SIGCHLD 0 (-3)).1
         { (watchSignal st SIGCHLD 0 (-3)).1 with sigchldwatch := some (watchSignal st SIGCHLD 0 (-3)).2 })
 
+theorem r2_setNotify (E : List Nat) (st : St) (a : Nat) (n : Option Nat) : R2 E st (setNotify st a n) := by
+  unfold setNotify
+  exact r2_setW_keep E st a { st.getW a with notify := n } rfl rfl (Or.inl rfl) rfl
+
+theorem r2_linkNotified (E : List Nat) (r : St × Nat) (a : Nat) (flags : Nat) : R2 E r.1 (linkNotified r a flags) := by
+  unfold linkNotified
+  exact ((r2_setNotify E r.1 a (some r.2)).trans (r2_insertWatch _ _ _ _ _)).trans (r2_with_procs _ _ _)
+
+theorem r2_clearNotify (E : List Nat) (st : St) (a : Nat) : R2 E st (clearNotify st a) := by
+  unfold clearNotify
+  split
+  · exact r2_setNotify E st a none
+  · exact R2.refl _ _
+
 theorem r2_linkProcess (st : St) (a : Nat) (pid : Int) (flags : Nat) : R2 [] st (linkProcess st a pid flags) := by
   unfold linkProcess
   simp only []
   split
-  · exact ((r2_waitpid [] st pid).trans (r2_setWstatus _ _ _ _)).trans (r2_watchLater _ _ _ _)
+  · split
+    · exact (((r2_waitpid [] st pid).trans (r2_setWstatus [] (waitpid st pid).st a (waitpid st pid).wstatus)).trans
+        (r2_watchLater _ 0 (-4) a)).trans (r2_linkNotified [] _ a flags)
+    · exact ((r2_waitpid [] st pid).trans (r2_setWstatus _ _ _ _)).trans (r2_watchLater _ _ _ _)
   · exact ((r2_waitpid [] st pid).trans (r2_insertWatch _ _ _ _ _)).trans (r2_with_procs _ _ _)
 
 theorem r2_watchProcess (st : St) (pid : Int) (flags : Nat) (slot : Int) : R2 [] st (watchProcess st pid flags slot).1 := by
@@ -1353,6 +1467,8 @@ structure K (st : St) : Prop where
   p2 : ∀ l, l < st.heap.length → (st.getW l).slot = -4 →
     (st.getW l).puser < st.heap.length ∧ isOneShot (st.getW (st.getW l).puser).type = false
   s4 : ∀ r ∈ st.slots, 0 ≤ r.k
+  /-- `process.notify` points at an internal watch -/
+  p3 : ∀ x, x < st.heap.length → ∀ l, (st.getW x).notify = some l → l < st.heap.length ∧ (st.getW l).slot < 0
 
 /-- Exactly once, as a count: the record of a timer / deferred callback says at most one invocation, none
     while the watch is allocated — except for the watch `c` whose callback is running, which says one. -/
@@ -1362,14 +1478,7 @@ def Once (c : Option Nat) (st : St) : Prop :=
 
 theorem K.of_q {st st' : St} (q : Q st st') (k : K st) : K st' := by
   obtain ⟨ns, e, f⟩ := q.slots
-  refine ⟨?_, q.keys k.s2, ?_, ?_, ?_, ?_⟩
-  rotate_right
-  · intro r hr
-    rw [e] at hr
-    simp only [List.mem_append] at hr
-    cases hr with
-    | inl hr => exact k.s4 r hr
-    | inr hr => exact (f r hr).2.2.2.2
+  refine { s1 := ?_, s2 := q.keys k.s2, s3 := ?_, p1 := ?_, p2 := ?_, s4 := ?_, p3 := ?_ }
   · intro a ha hs
     by_cases hold : a < st.heap.length
     · rw [q.b.h.slot a hold] at hs ⊢
@@ -1398,6 +1507,17 @@ theorem K.of_q {st st' : St} (q : Q st st') (k : K st) : K st' := by
       rw [q.b.h.puser l hold]
       exact ⟨Nat.lt_of_lt_of_le h1 q.b.h.len, q.b.h.notOneShot h1 h2⟩
     · exact q.b.pus l (by omega) hl hs
+  · intro r hr
+    rw [e] at hr
+    simp only [List.mem_append] at hr
+    cases hr with
+    | inl hr => exact k.s4 r hr
+    | inr hr => exact (f r hr).2.2.2.2
+  · intro x hx l hl
+    rcases q.b.pno x hx l hl with e' | e'
+    · obtain ⟨h1, h2⟩ := k.p3 x e'.1 l e'.2
+      exact ⟨Nat.lt_of_lt_of_le h1 q.b.h.len, by rw [q.b.h.slot l h1]; exact h2⟩
+    · exact e'
 
 theorem Once.of_q {st st' : St} {c : Option Nat} (q : Q st st') (k : K st) (hc : ∀ x, c = some x → x < st.heap.length)
     (o : Once c st) : Once c st' := by
@@ -1457,7 +1577,7 @@ theorem r2_doCancel (st : St) (k : Int) (hk : K st) : R2 [] st (doCancel st k) :
        fun x hx hlv hd => (by
          have e : ({ st with cancelReq := k :: st.cancelReq } : St).live x = st.live x := rfl
          rw [e, hlv hx] at hd; cases hd)⟩
-    refine h1.trans (r2_watchCancel [] _ r.handle (Or.inr ?_))
+    refine h1.trans (r2_watchCancel [] _ r.handle (Or.inr (Or.inl ?_)) (fun l hl => hk.p3 r.handle (hk.s3 r hr).1 l hl))
     show (st.getW r.handle).slot ∈ k :: st.cancelReq
     rw [(hk.s3 r hr).2, hrk]
     exact List.mem_cons_self
@@ -1593,11 +1713,12 @@ theorem Gone.of_r2 {st st' : St} (r : R2 [] st st') (q : Q st st') (k : K st) (g
   rw [e] at hr'
   simp only [List.mem_append] at hr'
   have key : ∀ x, x < st'.heap.length → (x < st.heap.length → st.live x = true) → st'.live x = false →
-      isOneShot (st'.getW x).type = true → (st'.getW x).slot ∉ st'.cancelReq → False := by
-    intro x h1 h2 h3 h4 h5
-    rcases r.gone x h1 h2 h3 with h | h
+      isOneShot (st'.getW x).type = true → (st'.getW x).slot ∉ st'.cancelReq → 0 ≤ (st'.getW x).slot → False := by
+    intro x h1 h2 h3 h4 h5 h6
+    rcases r.gone x h1 h2 h3 with h | h | h
     · rw [h] at h4; cases h4
     · exact h5 h
+    · omega
   rcases hr' with hr | hr
   · obtain ⟨h1, h2⟩ := k.s3 r' hr
     have hslot' : (st'.getW r'.handle).slot = r'.k := by rw [r.h.slot _ h1]; exact h2
@@ -1605,9 +1726,10 @@ theorem Gone.of_r2 {st st' : St} (r : R2 [] st st') (q : Q st st') (k : K st) (g
     | false =>
       exact g hal0 r' hr (by rw [← r.h.oneShot h1 ho]; exact ho) (fun hc => hnc (r.creq _ hc)) hl0
     | true =>
-      exact False.elim (key r'.handle (Nat.lt_of_lt_of_le h1 r.h.len) (fun _ => hl0) hd ho (by rw [hslot']; exact hnc))
-  · obtain ⟨_, p2, p3, p4, _⟩ := f r' hr
-    exact False.elim (key r'.handle p3 (fun hlt => by omega) hd ho (by rw [p4]; exact hnc))
+      exact False.elim (key r'.handle (Nat.lt_of_lt_of_le h1 r.h.len) (fun _ => hl0) hd ho (by rw [hslot']; exact hnc)
+        (by rw [hslot']; exact k.s4 r' hr))
+  · obtain ⟨_, p2, p3, p4, p5⟩ := f r' hr
+    exact False.elim (key r'.handle p3 (fun hlt => by omega) hd ho (by rw [p4]; exact hnc) (by rw [p4]; exact p5))
 
 /-! ### counting an invocation -/
 
@@ -1632,7 +1754,7 @@ theorem mem_bump {st : St} {k : Int} {r' : SlotRec} (h : r' ∈ (bump st k).slot
   split <;> simp_all
 
 theorem K.bump {st : St} (k : K st) (key : Int) : K (bump st key) := by
-  refine ⟨?_, by rw [bump_keys]; exact k.s2, ?_, k.p1, k.p2, ?_⟩
+  refine ⟨?_, by rw [bump_keys]; exact k.s2, ?_, k.p1, k.p2, ?_, k.p3⟩
   rotate_right
   · intro r' hr'
     obtain ⟨r, hr, e1, _, _⟩ := mem_bump hr'
